@@ -418,6 +418,11 @@ void session_interface::clear()
 {
 	check();
 	data_.clear();
+	// the entries _t/_h/_s that record age / expiration / on_server are gone: the in-memory settings
+	// must not outlive them, otherwise this request saves with settings the next request cannot see
+	timeout_val_=timeout_val_def_;
+	how_=how_def_;
+	on_server_=0;
 }
 
 std::set<std::string> session_interface::key_set()
